@@ -57,7 +57,7 @@ fn main() {
         if h.early_drop() {
             r.observe("histories:receiver-dropped-early", 1);
         }
-        if r.wants_sample() && h.batches.len() >= 3 && h.sends.len() >= 8 && h.sends.len() <= 80 && (seen.truncation || seen.retry) {
+        if !cfg!(miri) && r.wants_sample() && h.batches.len() >= 3 && h.sends.len() >= 8 && h.sends.len() <= 80 && (seen.truncation || seen.retry) {
             r.sample(|| sample_json(&h));
         }
     };
